@@ -72,7 +72,7 @@ impl AttackCase {
 }
 
 fn site_static(s: &str) -> Option<&'static str> {
-    const SITES: [&str; 8] = ["rng_multi_seed", "rng_pair_seed", "fashare_dm", "dvalue_share", "beaver_d", "beaver_e", "garble_row", "own_input"];
+    const SITES: [&str; 9] = ["rng_multi_seed", "rng_pair_seed", "fashare_dm", "dvalue_share", "beaver_d", "beaver_e", "garble_row", "own_input", "ot_choice"];
     SITES.iter().copied().find(|x| *x == s)
 }
 
